@@ -155,6 +155,9 @@ Definition move_back (s : state) (m iv : N) (new_ll : N) : option state :=
            end
        end.
 
+(* std::max( 1u, ( rc.second + connection_iterval - delta_time( 1 ) ) / connection_iterval ) *)
+Definition resched_times (t iv : N) : N := N.max 1 ((t + iv - 1) / iv).
+
 Definition step (c : cfg) (s : state) (o : op) : state * out :=
   if dead s then (s, OSkipped) else
   match o with
@@ -186,7 +189,7 @@ Definition step (c : cfg) (s : state) (o : op) : state * out :=
       else match dt_add t iv with
            | None => die s
            | Some x =>
-               let times := N.max 1 ((x - 1) / iv) in
+               let times := resched_times t iv in                   (* x = t + iv *)
                if two31 <=? times then die s                        (* std::min< int >( times, ... ) goes negative *)
                else let moved := N.min times (ll s) in
                     match move_back s (ll s - moved) iv 1 with
